@@ -856,4 +856,36 @@ theorem flatN_sub_flatNs (T : Table) (l : List Node) (n : Node) (hn : n ∈ l) :
     · exact Or.inl hx
     · exact Or.inr (ih hn x hx)
 
+theorem mem_commaK (l : List KT) (x : KT) (h : x ∈ l) : x ∈ commaK l := by
+  induction l with
+  | nil => simp at h
+  | cons a rest ih =>
+    cases rest with
+    | nil => simpa [commaK] using h
+    | cons b r =>
+      simp only [List.mem_cons] at h
+      simp only [commaK, List.mem_cons]
+      rcases h with rfl | h
+      · exact Or.inl rfl
+      · exact Or.inr (Or.inr (ih (by simpa using h)))
+
+/-- every item of a string list recorded under a slot of the node's definition is one of the node's tokens -/
+theorem recorded_item_in_flatN (T : Table) (name : Bytes) (args extra : List Arg) (children : List Node) (comments : List Bytes)
+    (d : CmdDef) (hd : T.byName name = some d) (k : String) (items : List Bytes) (h : assocGet args k = some (.strs k items))
+    (a : ArgDef) (ha : a ∈ d.args) (hslot : slotOf d k = some a) (x : Bytes) (hx : x ∈ items) :
+    (TokKind.string, renderItem x) ∈ flatN T (.mk name args extra children comments) := by
+  obtain ⟨h1, h2⟩ := lookupK_flatAs T d false args k _ h
+  have hak : a.name = k := by
+    have := List.find?_some hslot
+    simpa using this
+  have hin : (TokKind.string, renderItem x) ∈ (flatA T d false (.strs k items)).2 := by
+    simp only [flatA, hslot, flatList]
+    have hc := mem_commaK (items.map (fun v => ((TokKind.string, renderItem v) : KT))) (TokKind.string, renderItem x) (List.mem_map.mpr ⟨x, hx, rfl⟩)
+    simp [hc]
+  have hm := asm_mem d.args (flatAs T d false args) (flatAs T d true extra) a ha _ (by rw [hak]; exact h1) _ hin
+  simp only [flatN, hd]
+  split
+  · split <;> simp [hm]
+  · split <;> simp [hm]
+
 end Reprint
